@@ -18,6 +18,28 @@ SMP = "apps/sample.py"
 FLOAT_CALLS = {"np.prod", "np.product", "np.exp", "np.log", "np.sqrt", "np.power", "float", "np.float64", "gamma", "gammaln"}
 
 
+def orbit_fits(ctx, rule="C19.exact"):
+    from .common_guard import path_facts, rel
+    ctx.explain(f"{rule}: (the orbit fits) orbit_cardinality pads the orbit with zeros up to `modes` entries: an orbit with MORE non-zero "
+                "entries than modes has no samples - some `return 0` (or raise) is taken under the fact len(orbit) > modes, ahead of the "
+                "multinomial (which otherwise counts the arrangements of the unpadded orbit).")
+    f = ctx.tree.func(SIM, "orbit_cardinality")
+    cfg = cfg_of(f.node)
+    orbp, modp = f.pos_params[0], f.pos_params[1]
+    ok = False
+    for nd in cfg.nodes:
+        if nd.kind == "stmt" and (isinstance(nd.ast, ast.Raise) or isinstance(nd.ast, ast.Return) and
+                                  isinstance(nd.ast.value, ast.Constant) and nd.ast.value.value == 0):
+            for a, v in path_facts(cfg, nd.id):
+                r_ = rel(a, v)
+                if r_ is not None and r_[0] == ">":
+                    big, small = ast.unparse(r_[1]).replace(" ", ""), ast.unparse(r_[2]).replace(" ", "")
+                    if big == f"len({orbp})" and small == modp:
+                        ok = True
+    ctx.ob(rule, f.site, ok, "" if ok else "orbit_cardinality has no `len(orbit) > modes -> 0` case: orbit_cardinality([2, 1, 1], 2) is 1 and "
+           "event_cardinality(4, 2, 2) is 2 (the only such sample is [2, 2])", role="orbit-fits", line=f.node.lineno)
+
+
 def exact(ctx, rule="C19.exact"):
     ctx.explain(f"{rule}: the value returned by orbit_cardinality / event_cardinality is built from integer-exact "
                 "operations only (no true division, no factorial(..., exact=False), no floating-point product).")
@@ -207,6 +229,7 @@ def order(ctx, rule="C19.set-order"):
 
 
 def rules(ctx):
+    orbit_fits(ctx)
     exact(ctx)
     index_space(ctx)
     clique_taint(ctx)
